@@ -1,9 +1,12 @@
 /-
 C17 — the command-line half: the file Dippy analyses is the file CPython would run.
 
-Property theorems only (the AST checker itself and CPython's run-time behaviour are not modelled:
+The AST checker (`SafetyAnalyzer`) is modelled in Model/PyAst.lean over a generic Python AST; the section
+"the checker reaches every node" below proves that an approved tree contains, at any depth and in any
+field, no import of a module outside the safe list, no reference to a refused builtin, no reflection
+attribute, no dangerous method, no async construct.  CPython's run-time behaviour is not modelled:
 "a script that passes the checker raises no dangerous audit event" is exercised by T2 with an audit
-hook, see harness/props/c17.py):
+hook, see harness/props/c17.py.  The command-line half:
   * `runs_analysed_file`: if `python …` is approved then, by CPython's argv grammar (`pythonRuns`,
     written independently), the command only prints help/version, or runs `-m calendar`, or runs a
     script whose file – resolved in the command's cwd – passed the analysis;
@@ -13,6 +16,8 @@ hook, see harness/props/c17.py):
   * T0 facts: suffix and size gates, module tables disjoint.
 -/
 import Dippy.Model.PyCli
+import Dippy.Lemmas.PyWalk
+import Dippy.Generated.PyAst
 
 namespace Dippy.C17
 
@@ -406,5 +411,171 @@ example : pythonRuns false ["bad.py", "--version"] = .script "bad.py" ["--versio
 example : pythonRuns false ["-W", "-h", "bad.py"] = .script "bad.py" [] := by decide +kernel
 example : pythonRuns false ["-", "safe.py"] = .stdin := by decide +kernel
 example : (splitOpts false ["-B", "-m", "calendar", "-h"]) = (["-B", "-m"], some "calendar", ["-h"]) := by decide +kernel
+
+/-! ### the checker reaches every node
+
+`PyAst.visit` is `SafetyAnalyzer.visit` (tied by T1 on generated scripts, the repository's own sources
+and the standard library as a corpus); `PyAst.Desc` is "is a node of the tree", written without
+reference to the visitor. -/
+
+section checker
+open Dippy.PyAst
+
+/-- the tables of python.py, as T0 reads them from the source on every run -/
+def srcTables : Tables :=
+  { safeModules := Generated.PyAst.safeModules, dangerousModules := Generated.PyAst.dangerousModules,
+    dangerousBuiltins := Generated.PyAst.dangerousBuiltins, dangerousAttrs := Generated.PyAst.dangerousAttrs,
+    reflectionAttrs := Generated.PyAst.reflectionAttrs, moduleAliasAttrs := Generated.PyAst.moduleAliasAttrs }
+
+/-- `analyze_python_source(source)` returns no violation (`allow_print=True`, as the handler calls it) -/
+def Approved (t : PNode) : Prop := visit srcTables true t = []
+
+instance (t : PNode) : Decidable (Approved t) := inferInstanceAs (Decidable (visit srcTables true t = []))
+
+/-- **no hidden node**: in an approved tree the class-specific check of every node, at any depth, is empty -/
+theorem approved_covers (t n : PNode) (h : Approved t) (hd : Desc t n) : localViolations srcTables true n = [] :=
+  visit_covers srcTables true t n h hd
+
+/-- … and every reported violation is some node's own (the walk invents nothing) -/
+theorem reports_are_local (t : PNode) (v : Violation) (hv : v ∈ visit srcTables true t) :
+    ∃ n, Desc t n ∧ v ∈ localViolations srcTables true n :=
+  visit_only_local srcTables true t v hv
+
+variable (T : Tables)
+
+/-- a module name passes: not dangerous (itself or its root package) and safe-listed (itself or its root) -/
+def ModuleOk (m : String) : Prop :=
+  T.dangerousModules.contains m = false ∧ T.dangerousModules.contains (rootOf m) = false
+    ∧ (T.safeModules.contains m = true ∨ T.safeModules.contains (rootOf m) = true)
+
+theorem moduleOk_iff (line : Nat) (m : String) : moduleViolation T line m = [] ↔ ModuleOk T m := by
+  unfold moduleViolation ModuleOk
+  by_cases h1 : T.dangerousModules.contains m = true <;> by_cases h2 : T.dangerousModules.contains (rootOf m) = true <;>
+    by_cases h3 : T.safeModules.contains m = true <;> by_cases h4 : T.safeModules.contains (rootOf m) = true <;>
+    simp_all
+
+theorem import_local (ap : Bool) (n : PNode) (hk : n.kind = "Import") (h : localViolations T ap n = []) :
+    ∀ a ∈ n.listField "names", ∀ m, a.strField "name" = some m → ModuleOk T m := by
+  unfold localViolations at h
+  simp only [hk] at h
+  intro a ha m hm
+  have := List.flatMap_eq_nil_iff.mp h a ha
+  exact (moduleOk_iff T n.line m).mp (by simpa [hm] using this)
+
+theorem importFrom_local (ap : Bool) (n : PNode) (hk : n.kind = "ImportFrom") (h : localViolations T ap n = []) :
+    ∃ m, n.strField "module" = some m ∧ ModuleOk T m
+      ∧ ∀ a ∈ n.listField "names", ∀ nm, a.strField "name" = some nm → fromNameViolation T n.line nm = [] := by
+  unfold localViolations at h
+  simp only [hk] at h
+  cases hm : n.strField "module" with
+  | none => simp [hm] at h
+  | some m =>
+    simp only [hm] at h
+    cases hv : moduleViolation T n.line m with
+    | cons v vs => simp [hv] at h
+    | nil =>
+      simp only [hv] at h
+      refine ⟨m, rfl, (moduleOk_iff T n.line m).mp hv, ?_⟩
+      intro a ha nm hnm
+      have := List.flatMap_eq_nil_iff.mp h a ha
+      simpa [hnm] using this
+
+theorem name_local (ap : Bool) (n : PNode) (hk : n.kind = "Name") (h : localViolations T ap n = []) (name : String)
+    (hn : n.strField "id" = some name) :
+    name ≠ "__builtins__" ∧ name ≠ "__loader__" ∧ name ≠ "__spec__" ∧ (n.isLoad = true → builtinRefused T ap name = false) := by
+  unfold localViolations at h
+  simp only [hk, hn] at h
+  by_cases h1 : name = "__builtins__" <;> by_cases h2 : name = "__loader__" <;> by_cases h3 : name = "__spec__" <;> simp_all
+
+theorem attribute_local (ap : Bool) (n : PNode) (hk : n.kind = "Attribute") (h : localViolations T ap n = []) (attr : String)
+    (hn : n.strField "attr" = some attr) :
+    T.reflectionAttrs.contains attr = false ∧ T.dangerousModules.contains (lstripUnderscore attr) = false
+      ∧ T.moduleAliasAttrs.contains attr = false ∧ (n.isLoad = true → T.dangerousAttrs.contains attr = false) := by
+  unfold localViolations at h
+  simp only [hk, hn] at h
+  by_cases h1 : T.reflectionAttrs.contains attr = true <;> by_cases h2 : T.dangerousModules.contains (lstripUnderscore attr) = true <;>
+    by_cases h3 : T.moduleAliasAttrs.contains attr = true <;> simp_all
+
+theorem async_local (ap : Bool) (n : PNode) (h : localViolations T ap n = []) :
+    n.kind ≠ "AsyncFunctionDef" ∧ n.kind ≠ "Await" := by
+  constructor <;> intro hk <;> (unfold localViolations at h; simp [hk] at h)
+
+/-- **what approval of a script guarantees, syntactically and at any nesting depth** -/
+theorem approved_imports (t n : PNode) (h : Approved t) (hd : Desc t n) (hk : n.kind = "Import") :
+    ∀ a ∈ n.listField "names", ∀ m, a.strField "name" = some m → ModuleOk srcTables m :=
+  import_local srcTables true n hk (approved_covers t n h hd)
+
+theorem approved_from_imports (t n : PNode) (h : Approved t) (hd : Desc t n) (hk : n.kind = "ImportFrom") :
+    ∃ m, n.strField "module" = some m ∧ ModuleOk srcTables m
+      ∧ ∀ a ∈ n.listField "names", ∀ nm, a.strField "name" = some nm → fromNameViolation srcTables n.line nm = [] :=
+  importFrom_local srcTables true n hk (approved_covers t n h hd)
+
+theorem approved_names (t n : PNode) (h : Approved t) (hd : Desc t n) (hk : n.kind = "Name") (name : String)
+    (hn : n.strField "id" = some name) (hl : n.isLoad = true) : builtinRefused srcTables true name = false :=
+  (name_local srcTables true n hk (approved_covers t n h hd) name hn).2.2.2 hl
+
+theorem approved_attributes (t n : PNode) (h : Approved t) (hd : Desc t n) (hk : n.kind = "Attribute") (attr : String)
+    (hn : n.strField "attr" = some attr) :
+    srcTables.reflectionAttrs.contains attr = false ∧ srcTables.dangerousModules.contains (lstripUnderscore attr) = false
+      ∧ srcTables.moduleAliasAttrs.contains attr = false ∧ (n.isLoad = true → srcTables.dangerousAttrs.contains attr = false) :=
+  attribute_local srcTables true n hk (approved_covers t n h hd) attr hn
+
+theorem approved_no_async (t n : PNode) (h : Approved t) (hd : Desc t n) : n.kind ≠ "AsyncFunctionDef" ∧ n.kind ≠ "Await" :=
+  async_local srcTables true n (approved_covers t n h hd)
+
+/-- concretely (T0 tables of this tree): no node of an approved script reads the name `eval`, `exec`, `open`,
+    `compile`, `__import__`, `getattr` … -/
+theorem refused_builtins :
+    ["eval", "exec", "open", "compile", "__import__", "getattr", "setattr", "globals", "input", "breakpoint"].all
+      (fun b => builtinRefused srcTables true b) = true := by decide +kernel
+
+theorem dangerous_modules_listed :
+    ["os", "sys", "subprocess", "socket", "shutil", "ctypes", "importlib", "pathlib", "io", "pickle"].all
+      (fun m => srcTables.dangerousModules.contains m) = true := by decide +kernel
+
+/-- T0: the visitor has exactly the `visit_` methods the model has cases for; every one ends in
+    `self.generic_visit(node)` except `visit_Global`, only `visit_ImportFrom` returns early; the class
+    overrides neither `visit` nor `generic_visit` and derives from `ast.NodeVisitor` alone; the driver
+    parses, visits the module and returns the violations -/
+theorem visitor_shape :
+    Generated.PyAst.visitorMethods =
+      [("AsyncFunctionDef", true, false), ("Attribute", true, false), ("Await", true, false), ("Call", true, false),
+       ("FunctionDef", true, false), ("Global", false, false), ("Import", true, false), ("ImportFrom", true, true),
+       ("Name", true, false), ("Starred", true, false), ("Try", true, false), ("With", true, false)]
+      ∧ Generated.PyAst.visitorOther = []
+      ∧ Generated.PyAst.driverCalls = ["SafetyAnalyzer", "Violation", "analyzer.visit", "ast.parse", "str"] := by
+  decide
+
+/-- the model's `descends` is that shape: a class whose method does not end in `generic_visit`, or returns
+    early, is exactly one the model treats specially -/
+theorem descends_matches_shape :
+    Generated.PyAst.visitorMethods.all (fun m =>
+      m.2.1 == descends (.mk m.1 0 [("module", .str "m")])
+        && m.2.2 == (descends (.mk m.1 0 [("module", .none)]) != descends (.mk m.1 0 [("module", .str "m")]))) = true := by
+  decide
+
+/-- non-vacuity: `import json; print(json.dumps(1))` is approved … -/
+example :
+    Approved (.mk "Module" 0 [("body", .list [
+      .node (.mk "Import" 1 [("names", .list [.node (.mk "alias" 1 [("name", .str "json"), ("asname", .none)])])]),
+      .node (.mk "Expr" 2 [("value", .node (.mk "Call" 2 [
+        ("func", .node (.mk "Name" 2 [("id", .str "print"), ("ctx", .node (.mk "Load" 0 []))])),
+        ("args", .list [.node (.mk "Call" 2 [
+          ("func", .node (.mk "Attribute" 2 [("value", .node (.mk "Name" 2 [("id", .str "json"), ("ctx", .node (.mk "Load" 0 []))])),
+                                              ("attr", .str "dumps"), ("ctx", .node (.mk "Load" 0 []))])),
+          ("args", .list [.node (.mk "Constant" 2 [("value", .other)])]), ("keywords", .list [])])]),
+        ("keywords", .list [])]))])])]) := by
+  decide +kernel
+
+/-- … and a reference to `eval` buried in a lambda inside a list inside a default argument is not -/
+example :
+    ¬ Approved (.mk "Module" 0 [("body", .list [
+      .node (.mk "FunctionDef" 1 [("name", .str "f"), ("args", .node (.mk "arguments" 0 [("defaults", .list [
+        .node (.mk "List" 1 [("elts", .list [.node (.mk "Lambda" 1 [("body",
+          .node (.mk "Name" 1 [("id", .str "eval"), ("ctx", .node (.mk "Load" 0 []))]))])])])])])),
+        ("body", .list [.node (.mk "Pass" 2 [])])])])]) := by
+  decide +kernel
+
+end checker
 
 end Dippy.C17
